@@ -599,6 +599,9 @@ def run(ctx):
         'k<=40 (quick) / 64 (thorough)} with both signs; (C) random cases up to 2000 bits incl. related operands (equal, off by one, '
         'near multiples); (PY) CPython primitives vs their Lean definitions. non-trivial = Michelson-typed operands with a numeric '
         'operand of magnitude > 1, a non-empty byte string or a bool')
+    ctx.extra['instructions'] = BINARY + UNARY[:7] + ['BYTES;INT', 'BYTES;NAT']
+    ctx.extra['operand_types'] = TYPES
+    ctx.extra['not_covered'] = ['AND/OR/XOR/NOT/LSL/LSR on bytes (no implementation in pytezos)', 'BLS12-381 rows of ADD/MUL/NEG/INT (C21)']
     g = Gen(ctx.rng, 40 if quick else 64)
     n_random = int(os.environ.get('VERIF_C16_RANDOM', 7000 if quick else 600000))
     workers = min(16, os.cpu_count() or 1)
